@@ -299,9 +299,9 @@ def run(tier='quick', seed=0, only=None, verbose=False):
             # the missing f2py tool chain stops the run before the guard in question can be reached
             rep.inconcl(dict(key=job['key'], what='f2py/meson missing: cell stops at compilation'))
         elif exp == 'raises' and r['outcome'] == 'returns':
-            rec = dict(property='C20', key=job['key'], kind='matrix',
+            rec = dict(property='C20', key=job['key'], kind='unsupported-not-refused',
                        what=f"{job['key']}: unsupported combination does not raise (outcome {r['outcome']}: {r['detail']})")
-            rep.violation(rec, findings.attribute('C20', job, rec))
+            rep.violation(rec, findings.attribute('C20', dict(job, spec=base_spec(job['delay'])), rec))
         else:
             n_ok += 1
             if exp == 'returns' and r['outcome'] == 'raises':
